@@ -47,6 +47,10 @@ def sc_doc(d):
     from harness.content import content_doc
 
     def tup(x):
+        if isinstance(x, list) and x and x[0] == "lit" and len(x) == 4 and isinstance(x[3], list) and x[3] and x[3][0] == "some":
+            # RDF language tags are case-insensitive (RDF 1.1 Concepts 3.3: the value space is lower case; rdflib's terms
+            # compare and hash that way, so one graph holding "x"@EN and "x"@en keeps one spelling): compared in lower case
+            x = x[:3] + [["some", x[3][1].lower()]]
         return tuple(tup(y) for y in x) if isinstance(x, list) else x
     out = {}
     for b in content_doc(d)[1:]:
